@@ -5,6 +5,8 @@ V = os.path.dirname(os.path.dirname(os.path.abspath(__file__)))
 TECH = "bounded model checking of the real C sources with CBMC 6.11 (goto-cc from /repo's tree, SAT), counterexamples and reachability witnesses replayed natively under ASan/UBSan"
 CHECKS = {
  # id: (category, level text, level note, design_ref, technique override)
+ "C02": ("model_checking", "For each enumerated layout of a conventional file (line kinds, optional blanks, quotes, trailing comments, continuation lines, re-opened sections, repeated keys; every delimiter class and comment set) the real parser returns exactly the expected sections, keys, values and first-definition lookups for every choice of field characters within their grammar class (symbolic).",
+         "layouts are concrete per instance (systematic sweep + VERIF_SEED-driven sample); bounds: <= 3 lines / <= 40 bytes per file; expected result constructed with the layout; memory-safety obligations of the same code are C04's", "5.1, 6/C02", None),
  "C03": ("model_checking", "For every pair of entry lists within the length bound (all section interleavings incl. re-opened sections, duplicates, empty sides, constructor-made empty objects; keys symbolic) the merge result satisfies each clause of the statement and every array write stays inside base+override entries.",
          "entry counts and section patterns are concrete per instance (all patterns up to A<->B renaming are enumerated as instances), keys symbolic; objects built in the parser's memory shape", "6/C03", None),
  "C10": ("model_checking", "Every read-only API call (8 typed getters, Def getters, extended getter, listings, path and tag queries), with every section/key argument spelling, leaves every byte of an arbitrary valid object unchanged; one step from an arbitrary state, sequences by induction.",
